@@ -655,13 +655,14 @@ func c11Charsets(run *PropRun) {
 				}
 			}
 			if badSim == "" {
-				ok := sim.InjectKeyBytes(eb)
+				two := append(append([]byte(nil), eb...), eb...) // the character twice: the second one starts where the first one ended
+				ok := sim.InjectKeyBytes(two)
 				var evs []Event
 				for len(sim.evch) > 0 {
 					evs = append(evs, <-sim.evch)
 				}
-				if !ok || !one(evs, r) {
-					badSim = fmt.Sprintf("InjectKeyBytes(%% x) for U+%%04X returned %%v with %%d events", eb, r, ok, len(evs))
+				if !ok || len(evs) != 2 || !one(evs[:1], r) || !one(evs[1:], r) {
+					badSim = fmt.Sprintf("InjectKeyBytes(%% x) for U+%%04X twice in a row returned %%v with %%d events", two, r, ok, len(evs))
 				}
 			}
 		}
